@@ -382,6 +382,22 @@ int main(int argc, char** argv) {
         if (it % 7 == 3) o.with_reps = false;
         if (it % 3 == 1) o.offgrid = true;  // sums of off-grid origins and offsets: one rounding, of the sum
         Library lib = gen_library(g, o);
+        {
+            // polygons beyond one XY record (8190 points incl. the closing one): the writer splits them into several XY records
+            // when no vertex limit is given, the reader joins them again; vertex counts around the record size and its double
+            static const int BIG[] = {8188, 8189, 8190, 8191, 16379, 16380, 16381, 20011};
+            int nbig = thorough ? 8 : 4;
+            int slot = thorough ? 40 : 20;
+            if (it % slot == 5 && it / slot < nbig && lib.cell_array.count > 0) {
+                int n = thorough ? BIG[it / slot] : BIG[2 * (it / slot) + 1];
+                Polygon* bp = (Polygon*)allocate_clear(sizeof(Polygon));
+                bp->tag = make_tag((uint32_t)g.below(60), (uint32_t)g.below(60));
+                for (int i = 0; i < n - 1; i++) bp->point_array.append(Vec2{(double)(2 * i) * o.grid, (double)((i % 2) ? 3 + (i % 5) : 0) * o.grid});
+                bp->point_array.append(Vec2{(double)(n - 1) * o.grid, -50.0 * o.grid});
+                lib.cell_array[0]->polygon_array.append(bp);
+                out.count("big-polygon");
+            }
+        }
         fix_library_for_plan(lib, o);
         std::string path = scratch + "/w.gds";
         lib.write_gds(path.c_str(), 0, &t);
